@@ -128,9 +128,14 @@ def run_tlc(d, module, workers=8, timeout=1800, extra=(), simulate=None, heap="1
     if simulate:
         cmd += ["-simulate", simulate]
     cmd += list(extra) + [module + ".tla"]
-    p = run(cmd, cwd=d, env=tlc_env("-Xmx" + heap), timeout=timeout, check=False)
+    # (TLC unpacks its standard modules into java.io.tmpdir on every start and leaves them there: keep that inside
+    # the run's own directory, which is removed afterwards, instead of littering /tmp)
+    jtmp = os.path.join(d, "jtmp-" + module)
+    os.makedirs(jtmp, exist_ok=True)
+    p = run(cmd, cwd=d, env=tlc_env("-Xmx" + heap + " -Djava.io.tmpdir=" + jtmp), timeout=timeout, check=False)
     out = p.stdout or ""
     shutil.rmtree(os.path.join(d, "meta-" + module), ignore_errors=True)
+    shutil.rmtree(jtmp, ignore_errors=True)
     m = None
     for m in STATS_RE.finditer(out):
         pass
